@@ -154,6 +154,7 @@ var assumptions = []string{
 	"only agents known to the teamserver act; any known agent may send any pivot callback, whatever its Active flag (the callback contents are under the agent's control)",
 	"the database lives on tmpfs when /dev/shm is available (process-kill durability is not part of C09)",
 	"reopen restores through a transcription of the restore loop of (*Teamserver).Start() (AgentAll, AgentAdd, ParentOf, LinksOf); the real Start() is exercised by C10(c)",
+	"configuration: the WebHooks object, the Discord settings and the Service object are set on the teamserver object by a transcription of Start() (teamserver.go: WebHooks = NewWebHook(), SetDiscord from the WebHook block, Service from the Service block); the webhook endpoint and the operators' websockets are local servers owned by the case; time.Local is set for the case and restored",
 }
 
 // ---------------------------------------------------------------- (b) random histories
@@ -188,7 +189,9 @@ func genB(t *rapid.T) Case {
 	kinds := []string{"connect", "connect", "connect", "connect", "connect", "connect", "connect", "connect",
 		"disconnect", "disconnect", "disconnect", "disconnect",
 		"exit", "killdate", "markdead", "markdead", "markalive", "reg", "connectfail", "reopen",
-		"restart-family", "restart-family", "restart-family", "restart-family"}
+		"restart-family", "restart-family", "restart-family", "restart-family",
+		"inactive-connect", "inactive-connect", "connectforeign"}
+	c.Cfg = genCfg(t, "")
 	m := newModel(c)
 	scratch := summary{classes: map[string]int{}}
 	emit := func(op Op) {
@@ -215,6 +218,11 @@ func genB(t *rapid.T) Case {
 		case "restart-family":
 			restartFamily(t, m, n, emit)
 			continue
+		case "inactive-connect":
+			inactiveConnect(t, m, n, emit, freshIn(m, n))
+			continue
+		case "connectforeign":
+			op.B = rapid.IntRange(-1, n-1).Draw(t, "child")
 		case "connect":
 			op.B = rapid.IntRange(-1, n-1).Draw(t, "child")
 			op.B = preferOrphan(t, m, op.B)
@@ -456,6 +464,7 @@ func genLarge(t *rapid.T) Case {
 	n := clampInt(need+rapid.IntRange(0, 6).Draw(t, "spare"), 20, 70)
 	c.IDs = drawIDs(t, n)
 	c.DB = rapid.SampledFrom([]string{"fresh", "existed", "golden"}).Draw(t, "db")
+	c.Cfg = genCfg(t, "")
 
 	g := newLgen(t, &c, n)
 	for _, op := range shape {
@@ -473,7 +482,8 @@ func genLarge(t *rapid.T) Case {
 
 var largeKinds = []string{"anc", "anc", "anc", "anc", "anc", "self", "cross", "cross", "cut", "cut", "cut",
 	"recut", "recut", "recut", "reopen", "reopen", "death", "alive", "restart-family", "restart-family", "restart-family", "restart-family",
-	"generic", "generic", "generic", "generic", "generic", "generic", "generic", "generic", "generic", "generic"}
+	"generic", "generic", "generic", "generic", "generic", "generic", "generic", "generic", "generic", "generic",
+	"inactive-connect", "inactive-connect", "inactive-connect"}
 
 // lgen is the state of the large-universe generators: the case under construction and the
 // model forest that tells who is deep, who is whose ancestor and which subtrees were cut off.
@@ -561,7 +571,7 @@ func (g *lgen) generic() {
 	t, m, n := g.t, g.m, g.n
 	kinds := []string{"connect", "connect", "connect", "connect", "connect", "connect", "connect", "connect",
 		"disconnect", "disconnect", "disconnect", "disconnect",
-		"exit", "killdate", "markdead", "markdead", "markalive", "reg", "connectfail", "reopen"}
+		"exit", "killdate", "markdead", "markdead", "markalive", "reg", "connectfail", "reopen", "connectforeign"}
 	op := Op{K: rapid.SampledFrom(kinds).Draw(t, "kind"), A: rapid.IntRange(0, n-1).Draw(t, "actor")}
 	if rapid.Bool().Draw(t, "known-actor") { // most of a large universe may be unknown: prefer agents that can act
 		if known := m.sortedKnown(); len(known) > 0 {
@@ -571,6 +581,8 @@ func (g *lgen) generic() {
 		}
 	}
 	switch op.K {
+	case "connectforeign":
+		op.B = rapid.IntRange(-1, n-1).Draw(t, "child")
 	case "connect":
 		op.B = rapid.IntRange(-1, n-1).Draw(t, "child")
 		op.B = preferOrphan(t, m, op.B)
@@ -673,6 +685,8 @@ func (g *lgen) aimed(kind string) {
 		g.emit(Op{K: "reopen"})
 	case "restart-family":
 		restartFamily(t, m, n, g.emit)
+	case "inactive-connect":
+		inactiveConnect(t, m, n, g.emit, freshIn(m, n))
 	case "death": // an inner agent (parent and links) dies
 		var inner []int
 		cnt := m.linkCounts()
@@ -700,7 +714,7 @@ func (g *lgen) aimed(kind string) {
 func TestC09b(t *testing.T) {
 	core.Run(t, core.Spec[Case]{
 		Property: "C09", Sub: "b",
-		Rule: "random histories of 1..25 events over 3-5 agents (or 20-70, see SIZE/SHAPE below; ids from the whole 32-bit range incl. >= 2^31, 1..n registered at start; database file, a third each: fresh / created by the current code and opened again / a copy of the committed testdata/golden-schema.db made by the unchanged tree's db.DatabaseNew - labels db:fresh|existed|golden) with events reg, connect(p,c) for any pair incl. self / ancestor / an id never seen, failed connect, disconnect(p,x) incl. non-children, unknown ids and Removed=FALSE, exit, killdate, markdead, markalive, and reopen (~1 event in 20: a new Teamserver on the same file restores sessions and links as Start() does, then the history goes on - labels db:reopened, pivot-events-after-reopen, re-parenting-on-existing-db; performed in every state, see RESTARTS below); a violation that occurs on the golden file only, while its schema differs from a fresh one, is reported as schema|existing-database-differs-from-fresh|<tables>; one history in three starts with agent 0 linking 2..n-1 (+1) children and possibly dying, so that deaths with 3 and more links are frequent (labels death-links:0/1/2/3+); same oracle as (a). Non-trivial: a second link, a re-parenting, or a self/ancestor connect; distinct = (those four flags, links at death, death of a child, length bucket, child disconnect, reopened). SIZE/SHAPE dimension: about one history in six (label agents:20-70) runs over 20-70 agents and starts with the connects that build a shape by construction, each naming an id the teamserver has not seen (one callback registers and links the agent): shape:chain (depth from {15,16,17,18,31,32,33,64,65} or random 3..69), shape:star (15-60 links on one agent), shape:broom (chain + fan of 2-8 at its end), shape:two-chains (two roots, depths from {7,8,9,15,16,17,31,32,33} or random); one in four restarts right after the shape; then 1..25 events, about half aimed at the shape: a deep agent names its ancestor at a drawn distance (1, 2, 15, 16, 17, depth-1, depth, random) or itself, an agent is linked below an agent of another tree (chains are stacked), a parent disconnects a child in the middle and the cut-off subtree root is later named by one of its own descendants at a drawn distance or linked elsewhere (cut-subtree-reconnected-below-own-descendant), markalive of a cut-off agent, death of an inner agent, reopen in between (reopen-at-depth>=16); the rest as in the small universes. Labels max-depth:<=4|5-15|16-17|18-33|>33 (deepest agent reached in the model forest), cyclic-connect-at-distance:1-2|3-15 and cyclic-connect-at-distance>=16. Oracle unchanged; with more than 8 sessions the routing task after each event is queued for every agent WITHOUT links only (each walk to the root passes through all ancestors, so every Parent pointer is still followed); distinct additionally records depth 5-15 / >=16 and whether a cyclic connect at distance >=16 was attempted. RESTARTS with stored links of inactive sessions: a restart restores only the sessions stored as active, so a stored link whose parent or child is inactive (after the disconnect of an agent that has links itself, a disconnect by a non-parent, a connect sent by a dead session) has no counterpart in the restored graph. The unchanged tree keeps such a row; rows found in that state right after a restart are DORMANT and tolerated while they stay unchanged (a dormant row that becomes a live link or disappears is ordinary again); every other row must be a live link, every live link has its row, and no agent may be the child in two rows, dormant or not (db|two-stored-parents). In both universe sizes one event in six (small) / eight (large) is a restart family: cut (an agent with links is disconnected by its parent - built first if there is none - then restart, one time in three twice: reopen-right-after-disconnect-of-an-inner-agent, two-reopens-in-a-row, reopen-with-stored-link-to-inactive-session), orphan (another agent reports the connect of a restored child whose stored parent is not in memory: connect-names-agent-whose-stored-parent-is-not-in-memory; half of the time a restart follows: reopen-after-connect-naming-an-orphan), back (the stored parent registers again - top-level, below another agent or below its former child - and reports the connect of its former child: orphan-linked-back-below-its-re-registered-stored-parent), twice; and while such an orphan exists one generic connect in three names it (connect-names-agent-with-other-dormant-stored-parent: the stored parent is in memory or the named agent itself was not restored). A family adds up to 6 events to the drawn 1..25. The oracle is evaluated after each of these events and after each restart",
+		Rule: "random histories of 1..25 events over 3-5 agents (or 20-70, see SIZE/SHAPE below; ids from the whole 32-bit range incl. >= 2^31, 1..n registered at start; database file, a third each: fresh / created by the current code and opened again / a copy of the committed testdata/golden-schema.db made by the unchanged tree's db.DatabaseNew - labels db:fresh|existed|golden) with events reg, connect(p,c) for any pair incl. self / ancestor / an id never seen, failed connect, disconnect(p,x) incl. non-children, unknown ids and Removed=FALSE, exit, killdate, markdead, markalive, and reopen (~1 event in 20: a new Teamserver on the same file restores sessions and links as Start() does, then the history goes on - labels db:reopened, pivot-events-after-reopen, re-parenting-on-existing-db; performed in every state, see RESTARTS below); a violation that occurs on the golden file only, while its schema differs from a fresh one, is reported as schema|existing-database-differs-from-fresh|<tables>; one history in three starts with agent 0 linking 2..n-1 (+1) children and possibly dying, so that deaths with 3 and more links are frequent (labels death-links:0/1/2/3+); same oracle as (a). Non-trivial: a second link, a re-parenting, or a self/ancestor connect; distinct = (those four flags, links at death, death of a child, length bucket, child disconnect, reopened). SIZE/SHAPE dimension: about one history in six (label agents:20-70) runs over 20-70 agents and starts with the connects that build a shape by construction, each naming an id the teamserver has not seen (one callback registers and links the agent): shape:chain (depth from {15,16,17,18,31,32,33,64,65} or random 3..69), shape:star (15-60 links on one agent), shape:broom (chain + fan of 2-8 at its end), shape:two-chains (two roots, depths from {7,8,9,15,16,17,31,32,33} or random); one in four restarts right after the shape; then 1..25 events, about half aimed at the shape: a deep agent names its ancestor at a drawn distance (1, 2, 15, 16, 17, depth-1, depth, random) or itself, an agent is linked below an agent of another tree (chains are stacked), a parent disconnects a child in the middle and the cut-off subtree root is later named by one of its own descendants at a drawn distance or linked elsewhere (cut-subtree-reconnected-below-own-descendant), markalive of a cut-off agent, death of an inner agent, reopen in between (reopen-at-depth>=16); the rest as in the small universes. Labels max-depth:<=4|5-15|16-17|18-33|>33 (deepest agent reached in the model forest), cyclic-connect-at-distance:1-2|3-15 and cyclic-connect-at-distance>=16. Oracle unchanged; with more than 8 sessions the routing task after each event is queued for every agent WITHOUT links only (each walk to the root passes through all ancestors, so every Parent pointer is still followed); distinct additionally records depth 5-15 / >=16 and whether a cyclic connect at distance >=16 was attempted. RESTARTS with stored links of inactive sessions: a restart restores only the sessions stored as active, so a stored link whose parent or child is inactive (after the disconnect of an agent that has links itself, a disconnect by a non-parent, a connect sent by a dead session) has no counterpart in the restored graph. The unchanged tree keeps such a row; rows found in that state right after a restart are DORMANT and tolerated while they stay unchanged (a dormant row that becomes a live link or disappears is ordinary again); every other row must be a live link, every live link has its row, and no agent may be the child in two rows, dormant or not (db|two-stored-parents). In both universe sizes one event in six (small) / eight (large) is a restart family: cut (an agent with links is disconnected by its parent - built first if there is none - then restart, one time in three twice: reopen-right-after-disconnect-of-an-inner-agent, two-reopens-in-a-row, reopen-with-stored-link-to-inactive-session), orphan (another agent reports the connect of a restored child whose stored parent is not in memory: connect-names-agent-whose-stored-parent-is-not-in-memory; half of the time a restart follows: reopen-after-connect-naming-an-orphan), back (the stored parent registers again - top-level, below another agent or below its former child - and reports the connect of its former child: orphan-linked-back-below-its-re-registered-stored-parent), twice; and while such an orphan exists one generic connect in three names it (connect-names-agent-with-other-dormant-stored-parent: the stored parent is in memory or the named agent itself was not restored). A family adds up to 6 events to the drawn 1..25. The oracle is evaluated after each of these events and after each restart. CONFIGURATION / ENVIRONMENT dimension: half of the histories run on the fixture's default teamserver object (label cfg:default); the other half draw every option independently, applied the way (*Teamserver).Start() turns the profile into state (and again at every reopen, before the sessions are restored): cfg:webhook = none (the empty WebHooks object Start() always creates; the default fixture has none at all) | 204 | 200 | 500 (profile block WebHook { Discord { Url } } naming a local HTTP server owned by the case that answers so, 200 and 500 with a body) | closed (the Url of a server that was closed): AgentAdd then builds Agent.ToMap() and posts it for every new and every restored session; cfg:operators=3 (three users in the Operators block, marks sent by them in turn), cfg:operators-connected=1|3 (authenticated operators on real websockets that receive every broadcast; connected again after each restart); cfg:service=block|type (Service block set up as in Start() on a private engine, with or without one registered third-party agent type); env:tz=UTC|+05:30|-08:00|+12:00|+14:00 (time.Local for the duration of the case); cfg:agent-killdate=past|future and cfg:agent-workinghours=set (the values every agent's DEMON_INIT carries). None of these may change the graph: the oracle is the same under all of them. EVENT side: connects reported by sessions that are in memory but INACTIVE - marked dead by an operator, kill date reached, exit received, disconnected by their parent or by its death - and keep calling back: about 2 events in 27 (small universes), 3 in 35 (large), 2 in 15-20 (scale, in the middle of and after the bulk) are an inactive-connect family: a known agent is made inactive in one of those ways unless one already is, then reports a successful connect naming an id the teamserver has never seen (half), a known agent or itself; one time in four the new child reports a connect in turn or the teamserver restarts (labels connect-by-inactive-sender:names-unknown-id|names-known-agent|names-itself-or-ancestor, inactive-sender:markdead|killdate|exit|disconnected; before this dimension 12% of the histories of (b) had a connect of an unknown id by an inactive sender, now 27%); and connectforeign (1 generic event in 21-27): the child's package inside a successful connect carries the magic value of a third-party agent type instead of the Demon's (label ev:connect-third-party-magic; only the invariants are asserted after it).",
 		Gen:   genB, Check: checkCase, Classify: classify,
 		Assumptions: assumptions,
 	})
